@@ -747,6 +747,15 @@ _FILL = ("      if op.target not in get_anext_incoming:\n"
          "        get_anext_incoming[op.target] = set()\n"
          "      get_anext_incoming[op.target].add(op)\n")
 
+_WHOLE = ("  get_anext_incoming: dict[JUMP_BACKWARD, set[GET_ANEXT]] = {}\n"
+          "  for op in ops:\n"
+          "    if isinstance(op, JUMP_BACKWARD) and isinstance(op.target, GET_ANEXT):\n"
+          + _FILL + "\n"
+          "  for e in exc_table.entries:\n"
+          "    if e.start in offset_to_op and isinstance(offset_to_op[e.start], GET_ANEXT):\n"
+          "      get_anext = offset_to_op[e.start]\n"
+          + _GUARD + _BODY)
+
 VARIANTS = [
     # -- R15.50
     {"name": "handler-syntaxerror-only", "rule": "R15.50", "file": CB, "expect": "fire",
@@ -796,6 +805,24 @@ VARIANTS = [
             "      except KeyError:\n"
             "        continue\n"
             "      for jump_backward in incoming:\n"},
+    {"name": "twin-locals-renamed-one-lookup", "rule": "R15.51", "file": OP, "expect": "silent",
+     "old": _WHOLE,
+     "new": "  back_edges = {}\n"
+            "  for op in ops:\n"
+            "    if not isinstance(op, JUMP_BACKWARD):\n"
+            "      continue\n"
+            "    head = op.target\n"
+            "    if isinstance(head, GET_ANEXT):\n"
+            "      if head in back_edges:\n"
+            "        back_edges[head].add(op)\n"
+            "      else:\n"
+            "        back_edges[head] = {op}\n"
+            "\n"
+            "  for entry in exc_table.entries:\n"
+            "    head = offset_to_op.get(entry.start)\n"
+            "    if isinstance(head, GET_ANEXT) and head in back_edges:\n"
+            "      for jump in back_edges[head]:\n"
+            "        jump.end_async_for_target = offset_to_op[entry.target]\n"},
     {"name": "twin-get-with-default", "rule": "R15.51", "file": OP, "expect": "silent",
      "old": _GUARD,
      "new": "      for jump_backward in get_anext_incoming.get(get_anext, ()):\n"},
